@@ -156,6 +156,14 @@ func NewExecCtx(w *World) *ExecCtx {
 					if a, ok := mc.Fn.(*ssa.Function); ok && x.inSet[a] && a.Parent() == f {
 						x.lexical[a] = append(x.lexical[a], b)
 					}
+					continue
+				}
+				// a function literal that captures nothing is a plain function value:
+				// it runs in the context of the points that use it
+				for _, op := range in.Operands(nil) {
+					if a, ok := (*op).(*ssa.Function); ok && a.Parent() == f && x.inSet[a] {
+						x.lexical[a] = append(x.lexical[a], b)
+					}
 				}
 			}
 		}
@@ -396,6 +404,13 @@ func (w *World) ledgerArms(c ssa.CallInstruction) []ledgerArm {
 	if cc.IsInvoke() {
 		if isLedgerType(cc.Value.Type()) {
 			return []ledgerArm{{Method: cc.Method.Name(), Recv: cc.Value, Site: c}}
+		}
+		// an element of a literal table of ledgers, seen through a narrower interface:
+		// the path being enumerated says which ledger it is
+		if w.cur != nil && w.cur.st != nil {
+			if rv := stripConv(w.resolveValue(cc.Value, w.cur.st, w.cur.eval, 3)); rv != cc.Value && isLedgerType(rv.Type()) {
+				return []ledgerArm{{Method: cc.Method.Name(), Recv: rv, Site: c}}
+			}
 		}
 		return nil
 	}
